@@ -76,6 +76,30 @@ def get_at(val, path):
     return val
 
 
+def restrict_summary(val, path, keep):
+    """the enum at `path` (which passes through a container's summary element) is known to be one of `keep` for *every* element"""
+    if not path:
+        if isinstance(val, Enum):
+            k2 = {i: p for i, p in val.variants.items() if i in keep}
+            return Enum(val.path, k2) if k2 else val
+        return val
+    step, rest = path[0], path[1:]
+    if step == "elem" and isinstance(val, Arr):
+        return Arr(val.len, restrict_summary(val.elem, rest, keep), {k: restrict_summary(c, rest, keep) for k, c in (val.cells or {}).items()}, val.container, val.view_of)
+    if isinstance(step, int) and isinstance(val, Struct) and step < len(val.fields):
+        return val.with_field(step, restrict_summary(val.fields[step], rest, keep))
+    if isinstance(step, int) and isinstance(val, (Ref, Arr)):
+        return restrict_summary(val, rest, keep) if rest else val
+    if isinstance(step, tuple) and step[0] == "v" and isinstance(val, Enum) and step[1] in val.variants:
+        fs = list(val.variants[step[1]])
+        if rest and isinstance(rest[0], int) and rest[0] < len(fs):
+            fs[rest[0]] = restrict_summary(fs[rest[0]], rest[1:], keep)
+            nv = dict(val.variants)
+            nv[step[1]] = tuple(fs)
+            return Enum(val.path, nv)
+    return val
+
+
 def set_at(val, path, new):
     if not path:
         return new
@@ -208,10 +232,16 @@ class State:
                 if isinstance(v, Enum):
                     keep = {i: p for i, p in v.variants.items() if i in f[2]}
                     if not keep:
+                        if "elem" in f[1][1]:
+                            continue       # no element can look like that: says the container is empty, which is recorded separately
                         raise Infeasible()
                     if len(keep) != len(v.variants):
-                        self.cells[f[1][0]] = set_at(self.cells[f[1][0]], f[1][1], Enum(v.path, keep))
-                        if len(keep) == 1:
+                        if "elem" in f[1][1]:
+                            # a fact about every element of a container: the summary (and every known cell) is restricted, not weakly updated
+                            self.cells[f[1][0]] = restrict_summary(self.cells[f[1][0]], f[1][1], keep)
+                        else:
+                            self.cells[f[1][0]] = set_at(self.cells[f[1][0]], f[1][1], Enum(v.path, keep))
+                        if len(keep) == 1 and "elem" not in f[1][1]:
                             self.apply_guard(f[1], ("v", next(iter(keep))))
 
     def relocate_guards(self, src, dst):
@@ -664,14 +694,9 @@ def join_states(a, b, widen=False, thresholds=(), templates=False, template_vars
         out.cons = c
     else:
         out.cons = join_cons(a.cons, b.cons, a.bounds_of, b.bounds_of, (_heap_templates(a, b, template_vars) if templates else []) + _extra_templates(a, b), relax=relax)
-        # constraints over the payload of an enum variant that the other state does not have hold there vacuously
-        for (x, y) in ((a, b), (b, a)):
-            for c in x.cons.le:
-                if c not in out.cons.le and _vacuous(y, c):
-                    out.cons.le.add(c)
-            for c in x.cons.eq:
-                if c not in out.cons.eq and _vacuous(y, c):
-                    out.cons.eq.add(c)
+        # constraints over the payload of an enum variant that the other state does not have are NOT kept here: they hold only under
+        # that variant, while everything in `cons` is used unconditionally (interval propagation, entailment).  They survive as guarded
+        # facts keyed on the enum's variant (join_guards records every fact one side loses), and come back when the variant is selected.
     out.defs = {k: v for k, v in a.defs.items() if b.defs.get(k) == v}
     g = {}
     for k in set(a.ghost) | set(b.ghost):
@@ -760,9 +785,12 @@ def _discriminators(val, prefix=(), depth=0):
     elif isinstance(val, Int):
         if val.bits == 1:
             yield prefix, "bool", val
-    elif isinstance(val, Struct) and depth < 2:
+    elif isinstance(val, Struct) and (depth < 2 or (depth < 3 and "elem" in prefix)):
         for i, f in enumerate(val.fields):
             yield from _discriminators(f, prefix + (i,), depth + 1)
+    elif isinstance(val, Arr) and depth < 2 and not val.elem.is_bot():
+        # the summary element of a container: an enum node there speaks about every element
+        yield from _discriminators(val.elem, prefix + ("elem",), depth + 1)
 
 
 def _lost_facts(s, out, limit=60):
